@@ -186,6 +186,8 @@ def decl_field_type(d, f):
     t = field_type(d, f)
     if f["kind"] == "uarb" and f.get("tyspell"):
         t = f["tyspell"] + t
+    if f["kind"] == "optenum" and f.get("optspell"):
+        t = f["optspell"] + t                       # ::core::option::Option<E>
     return t
 
 
@@ -263,8 +265,9 @@ def decl_source(d, doc=False, derive_debug_enums=True, vis=None):
         if d.get("defform", "lit") == "const":
             if doc:
                 out.append("/// the default")
-            out.append("%sconst DEFVAL: u%d = 0x%x;" % (vis, d["s"], val))
-            args.append("default%s DEFVAL" % sep)
+            dn = d.get("defname", "DEFVAL")          # the user's constant may be called like one of the macro's own items
+            out.append("%sconst %s: u%d = 0x%x;" % (vis, dn, d["s"], val))
+            args.append("default%s %s" % (sep, dn))
         else:
             args.append("default%s %s" % (sep, default_literal(d.get("defform", "lit"), val, d["s"])))
     if d.get("debug", False):
@@ -484,7 +487,7 @@ def macro_wrapped(d, lines):
     a = max(j for j in range(k) if body[j].startswith("#[bitbybit::bitfield("))
     m = re.search(r"default( =|:) ([0-9A-Za-z_]+)", body[a])
     if m:
-        frag = "$d:ident" if m.group(2) == "DEFVAL" else "$d:literal"
+        frag = "$d:ident" if m.group(2) == d.get("defname", "DEFVAL") else "$d:literal"
         body[a] = body[a][:m.start(2)] + "$d" + body[a][m.end(2):]
         params.append(frag)
         args.append(m.group(2))
